@@ -336,13 +336,43 @@ class ObjMachine(Machine):
             self._fail("C16.independence", f"{cname} {op['how']}: mutating the {op['side']} "
                                            f"({what}) changed the other object:\n{before[0]}\n---\n"
                                            f"{after[0]}", cls=cname, mutation=what)
+        raw = what in ("flags.append", "logs.append", "option.flags.append",
+                       "srcport.items.append", "items.append:port", "ports.append",
+                       "input.append")
+        if cname == "Acl" and getattr(mutated, "group_by", "") and what in (
+                "items.append", "items.pop", "items.reverse"):
+            raw = True  # loose entries next to groups: structure no longer follows group_by
+        if cname == "AceGroup" and not mutated.items:
+            raw = True  # an emptied group keeps a number no constructor can give it: not judged
+        if cname in ("Acl", "AceGroup", "Ace") and what in ("ace.dstport.line", "dstport.line"):
+            raw = True  # a port edited without its entry: protocol.has_port is the entry's job
         if snapshot(mutated) != before_mut:
             self.probes["effective_mutations"] += 1
+        if snapshot(mutated) != before_mut and not raw:
+            # a rebuild taken *after* the edit must equal the edited object as well (scribbling
+            # into a raw list view leaves text and views out of step by the caller's own doing:
+            # such objects only serve the independence test and are dropped)
+            try:
+                c3 = mutated.copy()
+            except DOCUMENTED:
+                c3 = None  # the edit made the object unbuildable (e.g. multi-port on nxos)
+            if c3 is not None:
+                if c3.line != mutated.line:
+                    self._fail("C16.equal-text", f"{cname}: copy after {what} renders "
+                                                 f"{c3.line!r}, source {mutated.line!r}",
+                               cls=cname, after_edit=True)
+                if cname in HAS_EQ and not (c3 == mutated):
+                    self._fail("C16.equal-eq", f"{cname}: copy taken after {what} is not equal "
+                                               f"to its source although the texts agree",
+                               cls=cname, after_edit=True)
         self.did += 1
         self.trace.append(("copy", cname, op["how"], what))
-        if op["side"] == "source" or what == "mutation-rejected":
-            # keep a consistent live object: continue with the untouched one
-            slot["obj"] = other if what != "mutation-rejected" else x
+        if what == "mutation-rejected":
+            slot["obj"] = x if op["side"] == "copy" else other
+        elif op["arg"] % 2 == 0 and not raw:
+            slot["obj"] = mutated  # histories continue from edited objects half of the time
+        else:
+            slot["obj"] = other
         return "ok"
 
     def _mutate(self, o, cname, k, arg):
@@ -385,11 +415,12 @@ class ObjMachine(Machine):
             acts += [("text", lambda: setattr(o, "text", "other text")),
                      ("sequence", lambda: setattr(o, "sequence", 9))]
         elif cname in ("Address", "AddressAg"):
-            acts += [("line", lambda: setattr(o, "line", "host 9.9.9.9")),
-                     ("items.append", lambda: o.items.append(type(o)("host 8.8.8.8",
-                                                                     platform=o.platform))),
-                     ("items[0].line", lambda: o.items and setattr(o.items[0], "line",
-                                                                   "host 7.7.7.7"))]
+            acts += [("line", lambda: setattr(o, "line", "host 9.9.9.9"))]
+            if o.type == "addrgroup":  # members belong to group addresses only
+                acts += [("items.append", lambda: o.items.append(type(o)("host 8.8.8.8",
+                                                                         platform=o.platform))),
+                         ("items[0].line", lambda: o.items and setattr(o.items[0], "line",
+                                                                       "host 7.7.7.7"))]
         elif cname == "AddrGroup":
             acts += [("items.pop", lambda: o.items.pop() if len(o.items) > 1 else None),
                      ("items.append", lambda: o.items.append(AddressAg("host 8.8.8.8",
@@ -400,7 +431,7 @@ class ObjMachine(Machine):
                      ("resequence", lambda: o.resequence(3, 3))]
         elif cname == "Port":
             acts += [("line", lambda: setattr(o, "line", "eq 1")),
-                     ("items.append", lambda: o.items.append(4444)),
+                     ("items.append:port", lambda: o.items.append(4444)),
                      ("ports.append", lambda: o.ports.append(4444)),
                      ("items=", lambda: setattr(o, "items", [9]))]
         elif cname == "Protocol":
@@ -480,7 +511,8 @@ class ObjMachine(Machine):
             i = 0
             for gi, it in enumerate(obj.items):
                 if isinstance(it, AceGroup):
-                    m["L2"].append((f"g{gi}", it.uuid, norm(it.note)))
+                    first = it.items[0].uuid if it.items else f"empty{gi}"
+                    m["L2"].append((first, it.uuid, norm(it.note)))
                     inner = it.items
                 else:
                     inner = [it]
@@ -589,20 +621,17 @@ class ObjMachine(Machine):
                            f"{'uuid' if lost_uuid else 'note'} (e.g. {missing[0]})",
                            level="L1", **disc)
         # L2: groups, for transformations that are not group/ungroup themselves
-        if kind not in ("group", "ungroup") and before["L2"]:
-            b2 = [(u, n) for _, u, n in before["L2"]]
-            a2 = [(u, n) for _, u, n in after["L2"]]
-            if sorted(map(repr, b2)) != sorted(map(repr, a2)):
-                self.soft_fail("C16", "C16.identity",
-                               f"{cname}.{kind}: AceGroup objects were rebuilt: {b2[:2]} -> "
-                               f"{a2[:2]}", level="L2", **disc)
-        if kind == "group" and before["L2"]:
-            b2 = [(u, n) for _, u, n in before["L2"]]
-            a2 = [(u, n) for _, u, n in after["L2"]]
-            if b2 != a2:
-                self.soft_fail("C16", "C16.identity",
-                               f"{cname}.group on an already grouped ACL rebuilt the groups",
-                               level="L2", **disc)
+        # L2: a block that still starts with the same entry is the same block (blocks that a
+        # regrouping merges into their predecessor, or that ungroup dissolves, are replaced)
+        if kind != "ungroup" and before["L2"]:
+            b2 = {k_: (u, n) for k_, u, n in before["L2"]}
+            a2 = {k_: (u, n) for k_, u, n in after["L2"]}
+            for k_ in b2:
+                if k_ in a2 and a2[k_] != b2[k_] and k_ not in split_uuids:
+                    self.soft_fail("C16", "C16.identity",
+                                   f"{cname}.{kind}: the AceGroup starting with entry {k_[-4:]} "
+                                   f"was rebuilt: {b2[k_]} -> {a2[k_]}", level="L2", **disc)
+                    break
         # L3: sub-objects of surviving ACEs
         for ace in self._aces(x):
             if ace.uuid in l3_before and ace.uuid not in split_uuids:
